@@ -16,7 +16,8 @@ Events
       payload: code points (UTF-8 encoded before delivery)
       cd     : - (no CorrelationData) | r<k> | lowercase hex
       code   : - (no "code" user property) | Ok | Continue | Error | any other
-               capitalised literal | code points
+               capitalised literal except K… | code points |
+               K<key>~<value>;<key>~<value>…  raw user properties (code points)
       cd == - and code == -  ->  message.properties is None
       code != - and len(payload bytes) odd -> UserProperty = [(x,y),(code,..)]
 
@@ -40,6 +41,7 @@ Environment knobs
                        identical code path as a real timeout)
   PYDRIVER_ASYNC_GRACE   final grace period for async     (default 0.05)
   PYDRIVER_CASE_TIMEOUT  overall per-case limit           (default 5)
+  PYDRIVER_PUBS_FULL=1   pubs entries become topic|payload|0/1|<response topic>|<cd hex>|<retain>
   PYDRIVER_LOG=1         let the miniconf logger print to stderr
 """
 
@@ -163,7 +165,12 @@ def build_message(response_topic, args):
             props.CorrelationData = cd_of(int(cd_tok[1:]))
         else:
             props.CorrelationData = bytes.fromhex(cd_tok)
-    if code_tok != "-":
+    if code_tok.startswith("K"):
+        # raw user properties as seen on the wire: K<key>~<value>;<key>~<value>...
+        for kv in code_tok[1:].split(";"):
+            k, v = kv.split("~")
+            props.UserProperty = (dec(k), dec(v))
+    elif code_tok != "-":
         if code_tok[:1].isalpha() and code_tok[:1].isupper():
             code = code_tok
         else:
@@ -199,7 +206,14 @@ def fmt_pubs(published):
         has_rt = 0
         if props is not None and "ResponseTopic" in props.json():
             has_rt = 1
-        out.append(f"{enc(topic)}|{ptxt}|{has_rt}")
+        if os.environ.get("PYDRIVER_PUBS_FULL") == "1":
+            # what actually goes on the wire: response topic, correlation data (hex), retain flag
+            pj = props.json() if props is not None else {}
+            rt = enc(pj["ResponseTopic"]) if "ResponseTopic" in pj else "-"
+            cd = pj.get("CorrelationData", "-") or "e"
+            out.append(f"{enc(topic)}|{ptxt}|{has_rt}|{rt}|{cd}|{int(bool(rec[3]))}")
+        else:
+            out.append(f"{enc(topic)}|{ptxt}|{has_rt}")
     return ",".join(out)
 
 
